@@ -31,7 +31,7 @@ def main():
             X = np.asarray(x, dtype=np.int32)
             if poison:
                 pv = poison[k % len(poison)]
-                for sz in {int(np.float32(r) * len(x)), len(x), max(1, len(x) // 2)}:
+                for sz in {int(float(np.float32(r)) * len(x)), len(x), max(1, len(x) // 2)}:
                     _poison(sz, pv)
             out.append(float(est(Y, X, np.float32(r), bool(c))))
     elif mode == 'score_rep':
@@ -44,7 +44,7 @@ def main():
             for t in range(reps):
                 if poison:
                     pv = poison[(k + t) % len(poison)]
-                    for sz in {int(np.float32(r) * len(x)), len(x), max(1, len(x) // 2)}:
+                    for sz in {int(float(np.float32(r)) * len(x)), len(x), max(1, len(x) // 2)}:
                         _poison(sz, pv)
                 row.append(float(est(Y, X, np.float32(r), bool(c))))
             out.append(row)
@@ -55,9 +55,9 @@ def main():
             fv, _ = M.numba_unique(X)
             if poison:
                 pv = poison[k % len(poison)]
-                _poison(int(np.float32(r) * len(x)), pv)
+                _poison(int(float(np.float32(r)) * len(x)), pv)
             ys, xs = M.stratified_subsampling(Y, X, np.float32(r), fv)
-            out.append([ys.tolist(), xs.tolist(), int(np.float32(r) * len(x))])
+            out.append([ys.tolist(), xs.tolist(), int(float(np.float32(r)) * len(x))])
     elif mode == 'numba_mi':
         from outrank.algorithms import importance_estimator as IE
         import logging
@@ -67,7 +67,7 @@ def main():
     elif mode == 'final':
         # floor(float32(r) * n) exactly as the code computes it (no estimator call)
         for n, r in req['cases']:
-            out.append(int(np.float32(r) * n))
+            out.append(int(float(np.float32(r)) * n))
     else:
         raise SystemExit(f'unknown mode {mode}')
     sys.stdout.write(json.dumps({'results': out}, allow_nan=True) + '\n')
